@@ -9,6 +9,10 @@
 (*          "regen"    restart without a usable index file, data not       *)
 (*                     validated while the index is rebuilt                *)
 (*          "regenval" the same with validate_data_during_index_regen      *)
+(*          "reopen"   restart WITH the valid index file of the closed blob *)
+(*                     (nothing is scanned, so nothing is validated at      *)
+(*                     start-up, whatever the configuration says)           *)
+(*          "reopenval" the same with validate_data_during_index_regen on   *)
 (*   pos:   "only" / "first" / "middle" / "last" record of its blob        *)
 (*                                                                         *)
 (* Allowed outcomes for the damaged record: an error from read, or the     *)
@@ -20,7 +24,7 @@ EXTENDS Naturals, FiniteSets, TLC, Json
 
 VARIABLES index, pos, nrec
 
-Indexes == {"mem", "disk", "regen", "regenval"}
+Indexes == {"mem", "disk", "regen", "regenval", "reopen", "reopenval"}
 Positions == {"only", "first", "middle", "last"}
 
 \* is the data checksum evaluated before the storage starts serving?
